@@ -299,7 +299,7 @@ func (it *Interp) polyIsZero(d *Poly) *smt.Term {
 		q.addTerm(rm, coef)
 	}
 	if _, ok := q.isConst(); ok {
-		return r // q is a non-zero constant
+		return r // a single monomial (times a non-zero constant): zero iff one of its atoms is
 	}
 	// make q monic in its first monomial (sorted keys)
 	keys := make([]string, 0, len(q.terms))
@@ -312,10 +312,27 @@ func (it *Interp) polyIsZero(d *Poly) *smt.Term {
 		lead = keys[1]
 	}
 	inv := new(big.Int).ModInverse(q.terms[lead], secpN)
-	if inv != nil && inv.Cmp(big.NewInt(1)) != 0 {
+	scaled := inv != nil && inv.Cmp(big.NewInt(1)) != 0
+	if scaled {
 		q = polyMul(q, polyConst(inv))
 	}
-	return c.Or(r, c.Eq(it.polyTerm(q), c.IntI(0)))
+	// The raw test "canonical(d) = 0" stays the returned atom (other constraints mention the same canonical
+	// term syntactically); the factorised form is added once as a lemma, which is what lets the solver connect
+	// the zero tests of k, -2k, c*lambda*k ... without non-linear reasoning modulo n.
+	raw := c.Eq(it.polyTerm(d), c.IntI(0))
+	if len(ids) == 0 && !scaled {
+		return raw
+	}
+	done, _ := it.M.extra["poly.zero.lemmas"].(map[*smt.Term]bool)
+	if done == nil {
+		done = map[*smt.Term]bool{}
+		it.M.extra["poly.zero.lemmas"] = done
+	}
+	if !done[raw] {
+		done[raw] = true
+		it.addPC(c.Eq(raw, c.Or(r, c.Eq(it.polyTerm(q), c.IntI(0)))))
+	}
+	return raw
 }
 
 func (it *Interp) scIsZero(t *smt.Term) *smt.Term { return it.polyIsZero(it.polyOf(t)) }
